@@ -255,7 +255,7 @@ func genQuery3(t *rapid.T, p *pool, tris [][9]float64, kinds []string, label str
 	return q
 }
 
-var builds3 = []string{"mesh", "grouped", "ungrouped", "bvh", "handbvh", "colliders", "joined"}
+var builds3 = []string{"mesh", "grouped", "ungrouped", "bvh", "handbvh", "colliders", "joined", "joinedshared"}
 
 func genColl3(t *rapid.T) coll3Case {
 	p := &pool{grid: rapid.IntRange(0, 2).Draw(t, "grid") > 0}
@@ -264,7 +264,7 @@ func genColl3(t *rapid.T) coll3Case {
 	c.Tris = genTris3(t, p, 0, 28)
 	c.Ptr = genPtr(t, len(c.Tris))
 	c.Build = rapid.SampledFrom(builds3).Draw(t, "build")
-	if c.Build == "handbvh" || c.Build == "joined" {
+	if c.Build == "handbvh" || c.Build == "joined" || c.Build == "joinedshared" {
 		c.Shape = rapid.SliceOfN(rapid.IntRange(0, 11), 0, 12).Draw(t, "shape")
 	}
 	nq := rapid.IntRange(1, 10).Draw(t, "nq")
@@ -367,7 +367,7 @@ func buildIndex3(c coll3Case, tris []*model3d.Triangle) (*index3, error) {
 		return out
 	}
 	build := c.Build
-	if len(ix.objs) == 0 && (build == "bvh" || build == "handbvh" || build == "joined") {
+	if len(ix.objs) == 0 && (build == "bvh" || build == "handbvh" || build == "joined" || build == "joinedshared") {
 		build = "ungrouped" // hierarchies need at least one leaf (a BVH node is a leaf or a branch)
 	}
 	switch build {
@@ -396,7 +396,7 @@ func buildIndex3(c coll3Case, tris []*model3d.Triangle) (*index3, error) {
 	case "handbvh":
 		pos := 0
 		ix.multi = model3d.BVHToCollider(bvhFromShape3(list(), shapeTree(0, len(ix.objs), c.Shape, &pos)))
-	case "colliders", "joined":
+	case "colliders", "joined", "joinedshared":
 		ix.counter = new(int)
 		ws := make([]model3d.Collider, len(ix.objs))
 		for k, i := range ix.objs {
@@ -412,6 +412,21 @@ func buildIndex3(c coll3Case, tris []*model3d.Triangle) (*index3, error) {
 				return nil, fmt.Errorf("GroupedCollidersToCollider over MultiCollider leaves returned a %T, which is not a MultiCollider", coll)
 			}
 			ix.multi = mc
+		} else if build == "joinedshared" && len(ws) >= 2 {
+			// A construction HISTORY: a sub-assembly (a joined collider over all leaves but the last) is combined
+			// with the last leaf into the collider under test, and afterwards the same sub-assembly is combined
+			// twice more with other leaves.  Building the later assemblies must not change the earlier one
+			// (colliders are immutable after construction): it is queried after them.
+			pos := 0
+			m := len(ws) - 1
+			base := joinedFromShape3(ws[:m], shapeTree(0, m, c.Shape, &pos))
+			ix.coll = model3d.NewJoinedCollider([]model3d.Collider{base, ws[m]})
+			decoys := new(int)
+			for r := 0; r < 2; r++ {
+				d := &cnt3{t: tris[ix.objs[(r*(m/2))%m]], n: decoys}
+				_ = model3d.NewJoinedCollider([]model3d.Collider{base, d})
+				_ = model3d.NewJoinedCollider([]model3d.Collider{d, base})
+			}
 		} else {
 			pos := 0
 			ix.tree = shapeTree(0, len(ws), c.Shape, &pos)
